@@ -313,9 +313,9 @@ func TestVerifC17Meta(t *testing.T) {
 		}
 		return
 	}
-	depth := 6
+	depth := 7
 	if ev.Thorough() {
-		depth = 8
+		depth = 9
 	}
 	res.Bounds["depth"] = depth
 	res.Rule = "BFS over histories of {report(task, drop-collection|drop-partition message, shard subset), remove(task, message), reload from the store} for 2 tasks (ids prefix of each other) x 2 messages x target sets of 1..3 shards; each history replayed on a fresh real ReplicateMeteImpl over a JSON-serialising store; memory (white-box maps), store dump, API read-back and returned ready flag compared with a reference union after every step; states deduplicated on (memory, store) = the entire mutable state; non-trivial = distinct states reached through an accumulating report or a removal of a present message"
